@@ -243,7 +243,11 @@ Lemma sr_req_close_frame c : c_in_tx c = None -> (c_out_status c =? c_HTP_STREAM
 Proof.
   intros Hin Ho. unfold connp_req_data.
   destruct (c_in_status c =? c_HTP_STREAM_STOP)%Z; [reflexivity|]. destruct (c_in_status c =? c_HTP_STREAM_ERROR)%Z; [reflexivity|].
-  rewrite Hin. destruct (req_state_eqb (c_in_state c) REQ_IDLE) eqn:Es; cbn [negb]; [|reflexivity].
+  rewrite Hin. destruct (req_state_eqb (c_in_state c) REQ_IDLE) eqn:Es; cbn [negb andb].
+  2: { destruct (c_in_status c =? c_HTP_STREAM_TUNNEL)%Z eqn:Et; cbn [negb]; [|reflexivity].
+       cbn [Nat.eqb andb]. destruct (negb (c_in_status c =? c_HTP_STREAM_CLOSED)%Z); [reflexivity|]. cbv zeta.
+       match goal with |- context [(c_in_status ?y =? c_HTP_STREAM_TUNNEL)%Z] => change (c_in_status y) with (c_in_status c) end.
+       rewrite Et. reflexivity. }
   assert (Est : c_in_state c = REQ_IDLE) by (destruct (c_in_state c); try discriminate; reflexivity).
   cbn [Nat.eqb andb]. destruct (negb (c_in_status c =? c_HTP_STREAM_CLOSED)%Z); [reflexivity|].
   match goal with |- context [rq_loop cb g _ _ ?x] => set (c2 := x) end.
